@@ -50,7 +50,7 @@ class C04Oracle(Oracle):
         now_hex = [sess.volumes_hex(j) for j in range(nl)]
         now = [sess.volumes(j) for j in range(nl)]
         kind = op["op"]
-        if kind not in ("add", "remove", "aspirate", "dispense", "transfer", "distribute"):
+        if kind not in ("add", "remove", "aspirate", "dispense", "transfer", "distribute", "evo_aspirate", "evo_dispense"):
             # non-liquid operation: nothing may move
             for j in range(nl):
                 if now_hex[j] != self.prev_hex[j]:
@@ -96,7 +96,7 @@ class C04Oracle(Oracle):
                 exp = self.ledger.vol[li][w]
                 got = frac(now[li][w]) if now[li][w] == now[li][w] else None
                 t = tol(self.world, exp) if on_grid else Fraction(1, 10 ** 9) * max(1, abs(exp))
-                if got is None or abs(got - exp) > t * (1 if kind in ("add", "remove", "aspirate", "dispense") else max(1, len(steps))):
+                if got is None or abs(got - exp) > t * (1 if kind in ("add", "remove", "aspirate", "dispense", "evo_aspirate", "evo_dispense") else max(1, len(steps))):
                     self.fail("C04.ledger", i, op, "ok",
                               f"{g.name}{w}: reported {now[li][w]!r}, ledger (initial + added - removed) {float(exp)!r}",
                               {"well": list(w)})
@@ -201,6 +201,12 @@ class Program:
         if r < 0.04:
             return g.gen_misc()
         kind = rng.choice(["add", "remove", "aspirate", "dispense", "add", "remove", "transfer", "distribute"])
+        if self.world["device"] == "evo" and rng.random() < 0.12:
+            ek = rng.choice(["evo_aspirate", "evo_dispense"])
+            intent = "ok"
+            if rng.random() < self.p_fault:
+                intent = "reject.underflow" if ek == "evo_aspirate" else "reject.overflow"
+            return g.gen_evo(sess, ek, intent=intent, canonical=rng.random() < 0.9)
         if kind == "transfer":
             intent = rng.choice(["reject.underflow", "reject.overflow"]) if rng.random() < self.p_fault else "ok"
             return g.gen_transfer(sess, intent)
